@@ -24,7 +24,8 @@ PROP = dict(
         modelled=["math.Pow: its leading special cases (y == 0 || x == 1 -> 1, y == 1 -> x; src/math/pow.go) are modelled exactly (Model/Pow.v go_pow) and compared with every observation; "
                   "otherwise its observed result is an input of the model. The only assumed property is monotonicity on the operand box [1,11] x [0,100] (PowMonoBox, the explicit premise of "
                   "c18_cmp_nonneg / c18_cmp_monotone), tested on every pair of neighbouring observations; c18_cmp_zero_time / c18_cmp_zero_rate need no hypothesis. "
-                  "H4 (quasi-multiplicativity, premise of c18_cmp_subadditive_partial) is tested on every interval triple. A failed hypothesis test is reported as a broken correspondence.",
+                  "H4 (quasi-multiplicativity over consecutive intervals, pow x y1 * pow x y2 <= (1 + en/2^53) * pow x y12, the premise of c18_cmp_subadditive) is measured on every interval "
+                  "triple (en reported; en > 4096 is reported as a broken correspondence) and the proved bound is judged on the three implementation results with that en.",
                   "strconv.ParseFloat / FormatFloat as exact round-to-nearest-even (Lib/F64.v), validated bit-for-bit by the correspondence run"],
         assumptions=["accrual sites: the bank transfers, cToken mint and statistics of IterateLends and the reserve/buy-back bookkeeping are C08's subject and are not modelled here (the harness funds the accounts so that they succeed); "
                      "collector.LockerIterateRewards (the loop copy of the locker site) is not driven",
@@ -33,13 +34,14 @@ PROP = dict(
                      "c18_rate_defined additionally bounds each rate parameter below 2^128 ulps (beyond that the 315-bit Dec limit can panic)",
                      "InitGenesis, the v2 store migration and the upgrade handlers write rate parameters with keeper.SetAssetRatesParams without validation (outside the theorems; the harness "
                      "forces such parameters into the store and still compares the rate functions with the model)",
-                     "c18_cmp_subadditive is proved only up to the exact core (c18_cmp_subadditive_partial); the bound through the float roundings is judged on the implementation by predicate only",
+                     "sub-additivity of the float compound accrual (c18_cmp_subadditive) is proved through both float roundings and the 18-decimal formatting with slack "
+                     "amount * pow(x, y12) * (en + 5) * 2^-53 + 2 ulp: amount-relative, not one ulp",
                      "sub-additivity of the index accrual holds with slack amt*(4 + H/gi1 + H/gi2 + H/gi12) ulps, not one ulp (c18_idx_excess_witness)"],
     )
 
 MANIFEST = dict(
-    level_text="All clauses of C18 proved in Coq over an exact model of the Dec arithmetic and of binary64 rounding: non-negativity, zero over zero time, monotonicity in time/rate/principal for the index accrual, stable interest and (under the single tested hypothesis that math.Pow is monotone on the reachable operand box; zero over zero time and at zero rate unconditionally) the float compound accrual; sub-additivity over consecutive intervals with an explicit principal-proportional slack (a witness shows one-ulp slack is false); tracker carry; the accrual SITES (vault stability fee, locker savings, lend reward, borrow interest incl. stable-rate and reserve share): operand selection, conservation record+tracker, zero over zero time, whole histories; rate model over the parameters that AssetRatesParams.Validate accepts: defined on all of [0,1], base value, monotonicity across the kink, kink continuity bound, lend <= borrow. Tied to /repo by a differential run of the real keeper functions and of every validation path on every check (float path reproduced bit for bit).",
+    level_text="All clauses of C18 proved in Coq over an exact model of the Dec arithmetic and of binary64 rounding: non-negativity, zero over zero time, monotonicity in time/rate/principal for the index accrual, stable interest and (under the single tested hypothesis that math.Pow is monotone on the reachable operand box; zero over zero time and at zero rate unconditionally) the float compound accrual; sub-additivity over consecutive intervals for the index accrual AND for the float compound accrual (through the float roundings, under the tested quasi-multiplicativity H4 of math.Pow) with explicit principal-proportional slacks (a witness shows one-ulp slack is false); tracker carry; the accrual SITES (vault stability fee, locker savings, lend reward, borrow interest incl. stable-rate and reserve share): operand selection, conservation record+tracker, zero over zero time, whole histories; rate model over the parameters that AssetRatesParams.Validate accepts: defined on all of [0,1], base value, monotonicity across the kink, kink continuity bound, lend <= borrow. Tied to /repo by a differential run of the real keeper functions and of every validation path on every check (float path reproduced bit for bit).",
     design_ref="DESIGN.md section 4 C18",
-    level_note="Trusted: Coq kernel, extraction, OCaml runner, Go harness. math.Pow monotonicity on the operand box and H4 are tested, not proved. No axioms (Closed under the global context). C18-F1 (UOptimal >= 1 accepted) is repaired: fixes/C18-F1.",
+    level_note="Trusted: Coq kernel, extraction, OCaml runner, Go harness. math.Pow monotonicity on the operand box (premise of nonneg/monotone) and H4 (premise of sub-additivity) are tested, not proved. No axioms (Closed under the global context). C18-F1 (UOptimal >= 1 accepted) is repaired: fixes/C18-F1.",
     technique="Coq proof (monotonicity / rounding bounds over exact Dec and binary64 models) + model/implementation correspondence run",
 )
